@@ -110,20 +110,20 @@ variable [OfNat F 1]
 /-- the two ways `nr` returns a result, with everything the loop invariant says about them -/
 theorem nr_ok (c : NRCfg F) (obj : F → Eval F) (ns0 : F) (o : NROut F)
     (h : nr c obj ns0 = .ok o) (hb : c.nsMin ≤ c.nsMax) (h0 : ns0 ≤ c.nsMax) :
-    (∃ ev flag qs, Good c obj 0 c.maxSteps (c.nsTol + 1) c.fp0
+    (∃ ev flag qs, Good c obj 0 c.steps (c.nsTol + 1) c.fp0
           (.boundary o.x ev o.lastStep flag o.niter qs) ∧
-        o.f = ev.f ∧ o.flag = (if o.niter == c.maxSteps then 1 else flag) ∧ o.atBoundary = true ∧
+        o.f = ev.f ∧ o.flag = (if decide (c.maxSteps ≤ (o.niter : Int)) then 1 else flag) ∧ o.atBoundary = true ∧
         o.lastFp = ev.fp ∧ o.xPrev = o.x ∧ o.queries = qs.reverse) ∨
-    (∃ qs, Good c obj 0 c.maxSteps (c.nsTol + 1) c.fp0
+    (∃ qs, Good c obj 0 c.steps (c.nsTol + 1) c.fp0
           (.ended o.x o.lastStep o.lastFp o.xPrev o.niter qs) ∧
-        o.f = (obj o.x).f ∧ o.flag = (if o.niter == c.maxSteps then 1 else 0) ∧ o.atBoundary = false ∧
+        o.f = (obj o.x).f ∧ o.flag = (if decide (c.maxSteps ≤ (o.niter : Int)) then 1 else 0) ∧ o.atBoundary = false ∧
         o.queries = (o.x :: qs).reverse) := by
   unfold nr at h
   split_ifs at h with hlt
   have hin : InB c ns0 := ⟨not_lt.mp hlt, h0⟩
-  have hg := nrLoop_good c obj 0 c.maxSteps (c.nsTol + 1) c.fp0 hb c.maxSteps ns0 (c.nsTol + 1) c.fp0 ns0 0 []
+  have hg := nrLoop_good c obj 0 c.steps (c.nsTol + 1) c.fp0 hb c.steps ns0 (c.nsTol + 1) c.fp0 ns0 0 []
     hin (fun h => absurd h (lt_irrefl 0)) (by omega) (le_refl 0) (fun _ => ⟨rfl, rfl⟩) (by simp) rfl
-  cases hres : nrLoop c obj c.maxSteps ns0 (c.nsTol + 1) c.fp0 ns0 0 [] with
+  cases hres : nrLoop c obj c.steps ns0 (c.nsTol + 1) c.fp0 ns0 0 [] with
   | boundary ns ev step flag niter qs =>
     rw [hres] at h hg
     simp only [Except.ok.injEq] at h
@@ -171,7 +171,7 @@ theorem c11_nr_error_iff (c : NRCfg F) (obj : F → Eval F) (ns0 : F) :
   · exact ⟨fun _ => hlt, fun _ => ⟨_, rfl⟩⟩
   · constructor
     · rintro ⟨e, he⟩
-      cases hres : nrLoop c obj c.maxSteps ns0 (c.nsTol + 1) c.fp0 ns0 0 [] <;> rw [hres] at he <;> cases he
+      cases hres : nrLoop c obj c.steps ns0 (c.nsTol + 1) c.fp0 ns0 0 [] <;> rw [hres] at he <;> cases he
     · intro h; exact absurd h hlt
 
 /-- **reported minimum = objective at the reported point** -/
@@ -188,13 +188,13 @@ steps were taken; the number of steps never exceeds `max_steps`; a forced bound 
 fewer steps. -/
 theorem c11_nr_flag_iff_maxsteps (c : NRCfg F) (obj : F → Eval F) (ns0 : F) (o : NROut F)
     (h : nr c obj ns0 = .ok o) (hb : c.nsMin ≤ c.nsMax) (h0 : ns0 ≤ c.nsMax) :
-    (o.flag = 1 ↔ o.niter = c.maxSteps) ∧ o.niter ≤ c.maxSteps ∧
+    (o.flag = 1 ↔ o.niter = c.steps) ∧ o.niter ≤ c.steps ∧
     (o.flag = -2 ∨ o.flag = -1 ∨ o.flag = 0 ∨ o.flag = 1) ∧
     (o.atBoundary = true ↔ (o.flag = -2 ∨ o.flag = -1)) := by
   rcases nr_ok c obj ns0 o h hb h0 with ⟨ev, flag, qs, hg, _, hfl, hat, _⟩ | ⟨qs, hg, _, hfl, hat, _⟩
   · simp only [Good] at hg
     obtain ⟨_, _, _, _, hlt, hflag, _⟩ := hg
-    have hne : ¬ o.niter = c.maxSteps := by omega
+    have hne : ¬ o.niter = c.steps := by omega
     have hfl' : o.flag = flag := by rw [hfl]; simp [hne]
     rcases hflag with ⟨hf2, _⟩ | ⟨hf1, _⟩
     · rw [hfl', hf2, hat]; refine ⟨?_, by omega, Or.inl rfl, by simp⟩
@@ -207,7 +207,7 @@ theorem c11_nr_flag_iff_maxsteps (c : NRCfg F) (obj : F → Eval F) (ns0 : F) (o
       · intro hh; exact absurd hh hne
   · simp only [Good] at hg
     obtain ⟨_, _, hle, _⟩ := hg
-    by_cases hm : o.niter = c.maxSteps
+    by_cases hm : o.niter = c.steps
     · have : o.flag = 1 := by rw [hfl]; simp [hm]
       rw [this, hat]; exact ⟨by simp [hm], hle, by simp, by simp⟩
     · have : o.flag = 0 := by rw [hfl]; simp [hm]
@@ -229,7 +229,7 @@ theorem c11_nr_converged_step_small (c : NRCfg F) (obj : F → Eval F) (ns0 : F)
     omega
   · simp only [Good] at hg
     obtain ⟨_, _, hle, hk, hstep, _, _⟩ := hg
-    have hne : o.niter ≠ c.maxSteps := fun hh => by have := hfl.1.mpr hh; omega
+    have hne : o.niter ≠ c.steps := fun hh => by have := hfl.1.mpr hh; omega
     have hk' := hk (by omega)
     simp only [keepGoing, Bool.or_eq_false_iff, decide_eq_false_iff_not, not_lt] at hk'
     refine ⟨hk'.1, hk'.2, fun hpos => ?_⟩
@@ -240,7 +240,7 @@ theorem c11_nr_converged_step_small (c : NRCfg F) (obj : F → Eval F) (ns0 : F)
 `max_steps > 0`): a flag-0 result always comes from a real Newton step. -/
 theorem c11_nr_at_least_one_step (c : NRCfg F) (obj : F → Eval F) (ns0 : F) (o : NROut F)
     (h : nr c obj ns0 = .ok o) (hb : c.nsMin ≤ c.nsMax) (h0 : ns0 ≤ c.nsMax)
-    (hkeep : keepGoing c (c.nsTol + 1) c.fp0 = true) (hms : 0 < c.maxSteps) :
+    (hkeep : keepGoing c (c.nsTol + 1) c.fp0 = true) (hms : 0 < c.steps) :
     0 < o.niter ∨ o.atBoundary = true := by
   rcases nr_ok c obj ns0 o h hb h0 with ⟨ev, flag, qs, hg, _, _, hat, _⟩ | ⟨qs, hg, _, _, _, _⟩
   · exact Or.inr hat
@@ -264,7 +264,7 @@ theorem c11_nr_boundary_outward (c : NRCfg F) (obj : F → Eval F) (ns0 : F) (o 
   rcases nr_ok c obj ns0 o h hb.le h0 with ⟨ev, flag, qs, hg, _, hflag, hat, _⟩ | ⟨qs, hg, _, _, hat, _⟩
   · simp only [Good] at hg
     obtain ⟨_, hev, hst, _, hlt, hcases, _⟩ := hg
-    have hne : ¬ o.niter = c.maxSteps := by omega
+    have hne : ¬ o.niter = c.steps := by omega
     have hfl' : o.flag = flag := by rw [hflag]; simp [hne]
     rw [hev] at hst
     rcases hcases with ⟨hf2, hx, hs⟩ | ⟨hf1, _, hx, hs⟩
@@ -288,7 +288,7 @@ theorem c11_nr_boundary_outward (c : NRCfg F) (obj : F → Eval F) (ns0 : F) (o 
 and the last evaluation is at the reported point. -/
 theorem c11_nr_query_count (c : NRCfg F) (obj : F → Eval F) (ns0 : F) (o : NROut F)
     (h : nr c obj ns0 = .ok o) (hb : c.nsMin ≤ c.nsMax) (h0 : ns0 ≤ c.nsMax) :
-    o.queries.length = o.niter + 1 ∧ o.queries.length ≤ c.maxSteps + 1 ∧ o.queries.getLast? = some o.x := by
+    o.queries.length = o.niter + 1 ∧ o.queries.length ≤ c.steps + 1 ∧ o.queries.getLast? = some o.x := by
   rcases nr_ok c obj ns0 o h hb h0 with ⟨ev, flag, qs, hg, _, _, _, _, _, hq⟩ | ⟨qs, hg, _, _, _, hq⟩
   · simp only [Good] at hg
     obtain ⟨_, _, _, _, hlt, _, _, hlen, hhead⟩ := hg
@@ -1590,10 +1590,10 @@ theorem c11_nr_converged_close {K : Type} [Field K] [LinearOrder K] [IsStrictOrd
 
 /-- **stationary point within the configured tolerance** (D2 at the strength of the text, under a
 curvature bound): if `f'' ≥ m > 0` on the interval and `xs` is a stationary point of `f` in it, a flag-0
-result lies within `ns_tol + slope_threshold / m` of `xs`. -/
+result lies within `ns_tol + slope_threshold / m` of `xs` (one-sided derivatives at the bounds suffice). -/
 theorem c11_nr_converged_near_stationary (c : NRCfg ℝ) (f f' f'' : ℝ → ℝ) (ns0 m xs : ℝ) (o : NROut ℝ)
     (h : nr c (fun x => ⟨f x, f' x, f'' x⟩) ns0 = .ok o) (hb : c.nsMin ≤ c.nsMax) (h0 : ns0 ≤ c.nsMax)
-    (hd' : ∀ x, HasDerivAt f' (f'' x) x) (hm : 0 < m)
+    (hd' : ∀ x ∈ Set.Icc c.nsMin c.nsMax, HasDerivWithinAt f' (f'' x) (Set.Icc c.nsMin c.nsMax) x) (hm : 0 < m)
     (hcurv : ∀ x ∈ Set.Icc c.nsMin c.nsMax, m ≤ f'' x)
     (hxs : xs ∈ Set.Icc c.nsMin c.nsMax) (hstat : f' xs = 0) (hflag : o.flag = 0) (hn : 0 < o.niter) :
     |o.x - xs| ≤ c.nsTol + c.slopeThr / m := by
@@ -1606,9 +1606,16 @@ theorem c11_nr_converged_near_stationary (c : NRCfg ℝ) (f f' f'' : ℝ → ℝ
   -- mean value inequality for f' on the interval
   have mvt : ∀ x ∈ Set.Icc c.nsMin c.nsMax, ∀ y ∈ Set.Icc c.nsMin c.nsMax, x ≤ y → m * (y - x) ≤ f' y - f' x :=
     (convex_Icc c.nsMin c.nsMax).mul_sub_le_image_sub_of_le_deriv
-      (fun x _ => (hd' x).continuousAt.continuousWithinAt)
-      (fun x _ => (hd' x).differentiableAt.differentiableWithinAt)
-      (fun x hx => by rw [(hd' x).deriv]; exact hcurv x (interior_subset hx))
+      (fun x hx => (hd' x hx).continuousWithinAt)
+      (fun x hx => by
+        have hx' : x ∈ Set.Icc c.nsMin c.nsMax := interior_subset hx
+        rw [interior_Icc] at hx
+        exact ((hd' x hx').hasDerivAt (Icc_mem_nhds hx.1 hx.2)).differentiableAt.differentiableWithinAt)
+      (fun x hx => by
+        have hx' : x ∈ Set.Icc c.nsMin c.nsMax := interior_subset hx
+        rw [interior_Icc] at hx
+        rw [((hd' x hx').hasDerivAt (Icc_mem_nhds hx.1 hx.2)).deriv]
+        exact hcurv x hx')
   have hdist : |o.xPrev - xs| ≤ c.slopeThr / m := by
     rw [le_div_iff₀ hm]
     rcases le_total o.xPrev xs with hle | hle
